@@ -13,3 +13,5 @@ import Reamber.Props.C02
 #print axioms Reamber.C02.pairing_spec
 #print axioms Reamber.C02.reader_notes_eq_spec
 #print axioms Reamber.C02.tempo_list_keeps_times
+#print axioms Reamber.C02.tempo_grid48_gridCompatible
+#print axioms Reamber.C02.measuresOf_eq_scanRows
